@@ -113,8 +113,9 @@ def eval_point(tree, point, recognise, classify):
                 return lab
         return "else" if "else" in n[2] else "infeasible"
 
-    def run(seq, i, cont, depth):
-        key = (id(seq), i, tuple((id(c[0]), c[1]) for c in cont))
+    def run(seq, i, cont, depth, choices=()):
+        # choices: labels taken at the synthetic switches of modelled combinators (their results are phi nodes)
+        key = (id(seq), i, tuple((id(c[0]), c[1]) for c in cont), choices)
         if key in memo:
             return memo[key]
         memo[key] = set()
@@ -129,7 +130,16 @@ def eval_point(tree, point, recognise, classify):
             n = seq[i]
             k = n[0]
             if k == "switch":
-                d = unstamp(n[1])
+                ch = dict(choices)
+                d = unstamp(path_value(n[1], ch) if ch else n[1])
+                if d[0] == "const" and isinstance(d[1], (int, bool)):
+                    v = int(d[1])
+                    lab = "else" if "else" in n[2] else "infeasible"
+                    for l2 in n[2]:
+                        if l2 != "else" and v in l2:
+                            lab = l2
+                    out |= run(n[2][lab], 0, ((seq, i + 1, depth),) + cont, depth, choices) if lab != "infeasible" else set()
+                    break
                 lab = decide(d, n)
                 if lab == "unknown":
                     out.add(("?", show(d)[:80]))
@@ -137,15 +147,17 @@ def eval_point(tree, point, recognise, classify):
                 if lab == "infeasible":
                     break
                 labs = [lab] if lab is not None else list(n[2].keys())
+                synthetic = len(n[5]) > 4
                 for l in labs:
-                    out |= run(n[2][l], 0, ((seq, i + 1, depth),) + cont, depth)
+                    ch2 = tuple(sorted(list(dict(choices).items()) + [(n[5], l)], key=repr)) if synthetic else choices
+                    out |= run(n[2][l], 0, ((seq, i + 1, depth),) + cont, depth, ch2)
                 break
             if k == "inlined":
-                out |= run(n[3], 0, ((seq, i + 1, depth),) + cont, depth + 1)
+                out |= run(n[3], 0, ((seq, i + 1, depth),) + cont, depth + 1, choices)
                 break
             if k == "ret":
                 if depth == 0:
-                    out.add(classify(unstamp(n[1])))
+                    out.add(classify(unstamp(path_value(n[1], dict(choices)) if choices else n[1])))
                     break
                 if not cont:
                     out.add(("end",))
